@@ -20,7 +20,12 @@ int main(int argc, char** argv) {
   while ((k = read(0, buf, sizeof buf)) > 0) img.insert(img.end(), buf, buf + k);
   cctz::TimeZoneInfo z;
   MemSource src(img.data(), img.size());
-  if (!z.Load(&src)) return 1;
+  long long builtin_off = 0; bool builtin = false;
+  for (int i = 1; i < argc; i++) if (sscanf(argv[i], "builtin=%lld", &builtin_off) == 1) builtin = true;
+  if (builtin) {             // the table fixed_time_zone()/"Fixed/UTC+-hh:mm:ss" builds, instead of an image
+    img.clear();
+    if (!z.ResetToBuiltinUTC(cctz::seconds(builtin_off))) return 1;
+  } else if (!z.Load(&src)) return 1;
   // the representation invariant the query code relies on, recomputed independently of Load's own bookkeeping
   {
     const auto& tr = z.transitions_; const auto& ty = z.transition_types_;
@@ -69,7 +74,7 @@ int main(int argc, char** argv) {
       }
     }
     for (std::size_t t = 0; t < ty.size(); t++) {
-      if (ty[t].utc_offset <= -86400 || ty[t].utc_offset >= 86400) return fail("utc_offset outside +-24h", t);
+      if (ty[t].utc_offset < -86400 || ty[t].utc_offset > 86400 || (!builtin && (ty[t].utc_offset == -86400 || ty[t].utc_offset == 86400))) return fail("utc_offset outside +-24h", t);
       if (ty[t].abbr_index >= z.abbreviations_.size()) return fail("abbr_index out of range", t);
     }
   }
